@@ -5,6 +5,8 @@ import corpus
 SMALL = ["O", "Cl", "Br", "I", "[Na+]", "[Cl-]", "[Br-]", "OO", "[H][H]", "N", "O=O", "[OH-]", "[H+]", "[K+]", "N#N", "ClCl",
          "[NH4+]", "O=S(Cl)Cl", "B(O)(O)O", "[Li+]", "[I-]", "F", "S", "[Na]", "[H-]", "[K]", "[Li]"]
 HAND = [
+    # a ring-closure bond written across the '.' separator (valid SMILES): the per-molecule carbon counter and the whole-side formula disagree
+    "CC(=O)OCC.O>>C1(=O)O.C1", "C1.C1O>>CCO", "CC(=O)OCC.O>>C1(=O)O.C1.CCO", "C1.C1Br.O>>CCO",
     "CCBr.O>>CCO", "CC(=O)OC.O>>CC(=O)O", "CC(O)C>>CC(=O)C", "CC(=O)C>>CC(O)C", "CCBr.[Na+]>>CCO", "CC>>CCC", "CCC>>CC",
     "[U]>>[Th]", "F[U](F)(F)(F)(F)F>>[U]", "CCBr.OO.O>>CCO.OO", "CCBr.O.OOCC>>CCO.OOCC", "CCBr.O.C>>CCO.OOC",
     "CC(=O)O.[Na+].[OH-]>>CC(=O)[O-].[Na+]", "CC(=O)Cl.CN>>CC(=O)NC", "c1ccccc1Br.OB(O)c1ccccc1>>c1ccccc1-c1ccccc1",
